@@ -24,6 +24,11 @@ def cell(t, e, p, data, sync=False):
     return {"t": t, "e": e, "p": p, "data": _b(data), "sync": sync}
 
 
+def weight(c):
+    """size class of a cell as the design model counts it: KiB, 0 = less than 1 KiB"""
+    return len(c["data"]) // 1024
+
+
 def H(e, *pieces, sync=False):
     """header e from (piece kind, data) pairs"""
     return [cell("hdr", e, p, d, sync and i == 0) for i, (p, d) in enumerate(pieces)]
@@ -218,7 +223,9 @@ def long_streams(seed, count=4, stanzas=40):
 
 # --------------------------------------------------------------------------- description
 def data(st):
-    return b"".join(c["data"] for c in st["cells"])
+    if "_data" not in st:
+        st["_data"] = b"".join(c["data"] for c in st["cells"])
+    return st["_data"]
 
 
 def cell_ends(st):
@@ -241,9 +248,8 @@ def utf8_chars(b):
     return res
 
 
-def describe(st):
-    b = data(st)
-    b.decode("utf-8")  # the corpus must be valid UTF-8
+def elements(st):
+    """top-level elements and restart positions in byte offsets"""
     elems, sync, p = [], [], 0
     kind = {"hdr": "hdr", "st": "stanza", "ws": "ws", "cl": "close"}
     cells = st["cells"]
@@ -256,6 +262,13 @@ def describe(st):
             raise ValueError("whitespace cells are single bytes")
         if last:
             elems.append({"k": kind[c["t"]], "e": c["e"], "to": p})
+    return elems, sync
+
+
+def describe(st):
+    b = data(st)
+    b.decode("utf-8")  # the corpus must be valid UTF-8
+    elems, sync = elements(st)
     chars = utf8_chars(b)
     bnd, held = [0] * len(b), [0] * len(b)      # indexes by position p = 1..n (see FromCells in spec/Framing.tla)
     for j, el in enumerate(elems):
@@ -268,7 +281,7 @@ def describe(st):
 
 def shape_of(st):
     """cells in the form TLC exports them"""
-    return [{"t": c["t"], "e": c["e"], "p": c["p"], "sync": c["sync"]} for c in st["cells"]]
+    return [{"t": c["t"], "e": c["e"], "p": c["p"], "sync": c["sync"], "w": weight(c)} for c in st["cells"]]
 
 
 def cut_class(st, desc, p):
@@ -323,3 +336,200 @@ def cut_class(st, desc, p):
     if state == "text" and k in ("hdr", "close"):
         state = "tag"
     return {"hdr": "hdr-", "close": "close-", "stanza": ""}[k] + state
+
+
+# --------------------------------------------------------------------------- size classes
+# How much unparsed data the receiver carries between reads is a dimension of its own: a stanza
+# may be far larger than any read.  Sizes 1 KiB .. 1.1 MiB, realised as text content, as an
+# attribute value and as many child elements (a limit could count bytes, characters or elements),
+# always with 2-, 3- and 4-byte characters so that bytes != UTF-16 units != characters.
+KIB = 1024
+SIZES = {"1k": 1, "5k": 5, "70k": 70, "300k": 300, "1m": 1126}
+_PAT = ("Größe €uro 𝄞 lorem ipsum dolor sit amet, consectetur adipiscing elit, sed do eiusmod tempor incididunt ut labore "
+        "et dolore magna aliqua. ").encode("utf-8")
+
+
+def _fill(nbytes):
+    """exactly nbytes bytes of character data without markup characters or quotes"""
+    out = _PAT * (nbytes // len(_PAT))
+    return out + b"x" * (nbytes - len(out))
+
+
+def _children(nbytes, first=0):
+    out, i = [], first
+    size = 0
+    while True:
+        it = f"<item jid='u{i:07d}@example.org' name='Jürgen Müller {i} €'><group>Größe {i % 7}</group></item>".encode("utf-8")
+        if size + len(it) > nbytes:
+            break
+        out.append(it)
+        size += len(it)
+        i += 1
+    pad = nbytes - size
+    if pad:
+        out.append(b" " * pad)      # whitespace between children
+    return b"".join(out), i
+
+
+def _slices(blob, sizes):
+    """cut blob into consecutive pieces of (at least) the given sizes; a cut never falls inside a character"""
+    res, a = [], 0
+    for i, sz in enumerate(sizes):
+        b = len(blob) if i + 1 == len(sizes) else a + sz
+        while b < len(blob) and (blob[b] & 0xC0) == 0x80:
+            b += 1
+        res.append(blob[a:b])
+        a = b
+    return res
+
+
+_OPEN = {"text": "<message from='big@example.org/x' id='big-text' type='chat'><body>",
+         "attr": "<iq type='result' id='big-attr'><blob xmlns='urn:example:blob' data='",
+         "child": "<iq type='result' id='big-kids'><query xmlns='jabber:iq:roster' ver='v9'>"}
+_CLOSE = {"text": "</body></message>", "attr": "'/></iq>", "child": "</query></iq>"}
+
+
+def big_stanza(e, kind, weights, mb_after=None):
+    """cells of one large stanza: opening tag, content pieces of the given weights (KiB), closing tag;
+    mb_after = index of the piece after which a 4-byte character cut 2|2 is inserted"""
+    cells = [cell("st", e, "tag", _OPEN[kind])]
+    if kind == "child":
+        blob, _ = _children(sum(weights) * KIB)
+        pieces = _slices(blob, [w * KIB for w in weights])
+    else:
+        pieces = [_fill(w * KIB) for w in weights]
+    for i, pc in enumerate(pieces):
+        cells.append(cell("st", e, kind, pc))
+        if mb_after == i:
+            cells += [cell("st", e, "mb1", b"\xf0\x9f"), cell("st", e, "mb2", b"\x98\x80")]
+    cells.append(cell("st", e, "tag", _CLOSE[kind]))
+    return cells
+
+
+_SMALL1 = "<presence from='juergen@example.org/phone'><status>zurück</status></presence>"
+_SMALL2 = "<r xmlns='urn:xmpp:sm:3'/>"
+
+
+def size_model_variants():
+    """byte-exact instances of the model shapes m7..m9 (cells and weights as in spec/Framing.tla)"""
+    h = H(1, ("tag", f"<stream:stream {NS} from='example.org' id='big' version='1.0'>"))
+    out = []
+    out.append(stream("m7a", h + S(1, ("tag", _SMALL1)) + big_stanza(2, "text", [4, 59, 1, 1, 5]) + S(3, ("tag", _SMALL2))
+                      + C("</stream:stream>"), "70 KiB of text in one stanza", klass="size"))
+    out.append(stream("m8a", h + big_stanza(1, "attr", [64, 64, 172], mb_after=1) + S(2, ("tag", _SMALL2)) + C("</stream:stream>"),
+                      "300 KiB in one attribute value, 4-byte character cut 2|2 inside", klass="size"))
+    out.append(stream("m9a", h + big_stanza(1, "child", [16, 48, 1, 1061]) + W("\n") + S(2, ("tag", _SMALL1)) + C("</stream:", "stream>"),
+                      "1.1 MiB of child elements in one stanza", klass="size"))
+    return out
+
+
+def size_streams(names):
+    """header, small stanza, ONE stanza of the size class, small stanza, keep-alive, close; names like '70k-attr'"""
+    out = []
+    for nm in names:
+        size, kind = nm.split("-")
+        w = SIZES[size]
+        cells = H(1, ("tag", f"<stream:stream {NS} from='example.org' id='z{size}' version='1.0'>")) + S(1, ("xml", _SMALL1))
+        cells += [dict(c, p="xml" if c["p"] == "tag" else c["p"]) for c in big_stanza(2, kind, [w])]
+        cells += S(3, ("xml", _SMALL2)) + W("\n") + C("</stream:stream>")
+        out.append(stream("z" + size + kind[0], cells, f"{w} KiB stanza ({kind})", klass="size"))
+    return out
+
+
+def big_element(st):
+    """(first byte offset, end offset) of the largest top-level element"""
+    elems, _ = elements(st)
+    best, lo = (0, 0), 0
+    for el in elems:
+        if el["to"] - lo > best[1] - best[0]:
+            best = (lo, el["to"])
+        lo = el["to"]
+    return best
+
+
+def _units_offset(b, start, units):
+    """byte offset at which the text from `start` has `units` UTF-16 code units (None if shorter)"""
+    i, u = start, 0
+    while i < len(b) and u < units:
+        c = b[i]
+        ln = 1 if c < 0x80 else 2 if c < 0xE0 else 3 if c < 0xF0 else 4
+        u += 2 if ln == 4 else 1
+        i += ln
+    return i if u >= units else None
+
+
+def size_partitions(st, thorough=False, max_reads=24):
+    """partitions of a stream with a large stanza, positions relative to that stanza:
+    2-way splits after k*4 KiB, around k*64 KiB (bytes and UTF-16 units, counted from the start of the
+    stanza and of the stream), at its first/last bytes; uniform chunks of 4 KiB, 16 KiB, 64 KiB-1, 64 KiB,
+    64 KiB+1 (only those with at most max_reads reads)."""
+    b = data(st)
+    n = len(b)
+    B, E = big_element(st)
+    lean = not thorough and n > 512 * KIB      # quick tier, largest class: every parse attempt costs ~0.5 s
+    pre_close = E - len(b[:E].rsplit(b"<", 1)[-1]) - 1
+    pos = {B + 1, E - 1, pre_close} if lean else {B, B + 1, E - 1, E - 2, E, pre_close}
+    ks4 = range(1, 17) if thorough else (1,) if lean else (1, 2, 3)
+    pos |= {B + k * 4096 for k in ks4}
+    kmax = (E - B) // 65536
+    ks64 = range(1, kmax + 1) if thorough else sorted({1, 2, kmax} & set(range(1, kmax + 1)))
+    for k in ks64:
+        for d in ((-1, 0, 1) if k == 1 or not lean else (1,)):
+            if lean and k == 2:
+                continue
+            pos.add(B + k * 65536 + d)
+            if not lean:
+                pos.add(k * 65536 + d)
+            for start in ((B,) if lean else (0, B)):
+                o = _units_offset(b, start, k * 65536 + d)
+                if o is not None and (not lean or d >= 0):
+                    pos.add(o)
+    jobs = [{"cuts": [p], "src": "size2"} for p in sorted(pos) if 0 < p < n]
+    for sz in (4096, 16384, 65535, 65536, 65537):
+        if not thorough and n > 512 * KIB and sz != 65536:
+            continue      # quick tier: one uniform partition of the largest streams (every read re-parses the remainder)
+        if sz < n and -(-n // sz) <= max_reads:
+            jobs.append({"cuts": list(range(sz, n, sz)), "src": "chunk"})
+    return jobs
+
+
+def describe_coarse(st, cutsets):
+    """description with COARSE atoms for large streams: an atom is the run of bytes between two
+    consecutive positions of interest (element ends, every cut position any execution of this stream
+    uses, begin and end of every character such a position falls into).  Returns (description, ends)
+    with ends[i] = byte offset of the end of atom i+1."""
+    b = data(st)
+    b.decode("utf-8")
+    elems, sync = elements(st)
+    P = {el["to"] for el in elems} | set(sync)
+    cut_chars = {}
+    for cs in cutsets:
+        for p in cs:
+            if not 0 < p < len(b):
+                continue
+            P.add(p)
+            if (b[p] & 0xC0) == 0x80:      # inside a character: its parts are atoms of their own
+                a = p
+                while (b[a] & 0xC0) == 0x80:
+                    a -= 1
+                z = p
+                while z < len(b) and (b[z] & 0xC0) == 0x80:
+                    z += 1
+                P |= {a, z}
+                cut_chars[a] = z
+    P.discard(0)
+    ends = sorted(P)
+    idx = {p: i + 1 for i, p in enumerate(ends)}
+    cw, nb = [], len(ends)
+    bnd, held = [0] * nb, [0] * nb
+    for j, el in enumerate(elems):
+        bnd[idx[el["to"]] - 1] = j + 1
+    chars = []
+    for a, z in sorted(cut_chars.items()):
+        fa, ta = (idx[a] + 1 if a else 1), idx[z]
+        chars.append({"from": fa, "to": ta})
+        for q in range(fa, ta):
+            held[q - 1] = q - fa + 1
+    desc = {"n": nb, "elems": [{"k": el["k"], "e": el["e"], "to": idx[el["to"]]} for el in elems], "chars": chars,
+            "sync": [idx[p] for p in sync], "bnd": bnd, "held": held, "cw": [p // 1024 for p in ends]}
+    return desc, ends
